@@ -40,6 +40,19 @@ def post_process_operation(op: IROperation, context: ParsingContext) -> None:
                 context.parsed_schemas[sch_val.name] = sch_val
 
     # Handle response schemas
+    # Several responses of one operation can need a synthesized name: the status code then keeps the names apart
+    responses_to_name = [
+        resp_val
+        for resp_val in op.responses
+        if not getattr(resp_val, "stream", False)
+        and any(
+            sch.name is None
+            and not getattr(sch, "_from_unresolved_ref", False)
+            and sch.type == "object"
+            and (sch.properties or sch.additional_properties)
+            for sch in resp_val.content.values()
+        )
+    ]
     for resp_val in op.responses:
         for _, sch_resp_val in resp_val.content.items():
             if sch_resp_val.name is None:
@@ -54,7 +67,8 @@ def post_process_operation(op: IROperation, context: ParsingContext) -> None:
                     should_synthesize_name = True
 
                 if should_synthesize_name:
-                    generated_name = NameSanitizer.sanitize_class_name(op.operation_id + "Response")
+                    name_suffix = f"{resp_val.status_code}Response" if len(responses_to_name) > 1 else "Response"
+                    generated_name = NameSanitizer.sanitize_class_name(op.operation_id + name_suffix)
                     sch_resp_val.name = generated_name
                     context.parsed_schemas[generated_name] = sch_resp_val
 
